@@ -30,6 +30,13 @@ example : (Ledger.verifyBlock C01ex.env C01ex.cfg C01ex.led { C01ex.b2 with txs 
 example : (Ledger.verifyBlock C01ex.env C01ex.cfg C01ex.led
     { C01ex.b2 with txs := [{ C01ex.tx2 with ts := 9 }, ⟨"r2", [], [⟨"V", false, 3⟩], 15⟩] } 10 20).isOk = false := by rfl
 
+/-- C04 (adopted blocks): a block dated 0 — the value the pool reads as "no block yet" — is never accepted. -/
+theorem C04_verifyBlock_ts_nonzero (env : Env) (cfg : Cfg) (l : Ledger) (b : Block) (prevTs now : Int)
+    (h : Ledger.verifyBlock env cfg l b prevTs now = .ok ()) : b.ts ≠ 0 :=
+  Ledger.fee_verifyBlock_ts_ne_zero h
+
+example : (Ledger.verifyBlock C01ex.env C01ex.cfg C01ex.led { C01ex.b2 with ts := 0 } (-5) 20).isOk = false := by rfl
+
 /-- C04 (produced blocks): the block a tick appends links to the previous tip by hash (the zero hash for a first
     block), is dated at the tick's timestamp — hence exactly one interval after the previous block when the
     tick is on schedule; a tick on a non-empty chain is only accepted at a time different from the last
